@@ -148,6 +148,8 @@ MCall(m, t, op, n) ==
             [m1 EXCEPT !.skipCalled = TRUE, !.qClean = [u \in DOMAIN @ |-> FALSE]]
        [] op \in {"pagbi", "cstore"} ->
             [m1 EXCEPT !.lowLevel = TRUE]
+       [] op = "cloneuse" ->          \* a clone taken while others pull: remember what had been handed out before
+            [m1 EXCEPT !.floor[t] = m.hiRet]
        [] OTHER -> m1
 
 (***************************************************************************)
@@ -284,6 +286,17 @@ MRet(m, t, res) ==
              m2 == [m1 EXCEPT !.deliv = [p \in DOMAIN @ |-> IF p \in mv THEN Min2(2, @[p] + 1) ELSE @[p]]]
              m3 == AddFlags(m2, IF \E p \in mv : m.deliv[p] >= 1 THEN {"NoDup"} ELSE {})
          IN Move(m3, mv)
+    [] res.k = "cloneseq" ->
+         \* the clone was drained: it starts at the original's position at some moment of the clone call, hence not
+         \* before anything that a returned pull had delivered when the call started, and it runs to the end
+         LET ps == [j \in 1..Len(res.vals) |-> PosOf(m, res.vals[j])]
+             k == Len(ps)
+             f == IF \E j \in 1..k : ps[j] < 0 THEN {"CloneStart"}
+                  ELSE IF \E j \in 1..(k - 1) : ps[j + 1] # ps[j] + 1 THEN {"CloneStart"}
+                  ELSE IF k > 0 /\ ps[1] < m.floor[t] THEN {"CloneStart"}
+                  ELSE IF k > 0 /\ ps[k] # m.cfg.len - 1 THEN {"CloneStart"}
+                  ELSE {}
+         IN AddFlags(m0, f)
     [] res.k = "panic" ->
          LET f == IF ExpectedPanic(m, t, res) THEN {} ELSE {"Panic"} IN
          AddFlags([m0 EXCEPT !.panicSeen = (@ \/ pull)], f)
@@ -349,7 +362,7 @@ FlagsOf(c) ==
     [] c = "C13" -> {"CloneCount", "SrcDropped", "SrcModified"}
     [] c = "C15" -> {"Leak"}
     [] c = "C17" -> {"Abort", "Panic"}
-    [] c = "C19" -> {"RefIdentity", "SrcModified", "SrcDropped"}
+    [] c = "C19" -> {"RefIdentity", "SrcModified", "SrcDropped", "CloneStart"}
     [] OTHER -> {}
 
 Holds(m, c) == m.flags \cap FlagsOf(c) = {}
